@@ -37,14 +37,15 @@ func (o fanOp) String() string {
 }
 
 type fanScenario struct {
-	k       int
-	plan    [][]fanOp
-	blockAt map[int]int // channel -> index of the transport Write that blocks
-	failAt  map[int]int // channel -> index of the transport Write that fails
-	failLen int         // that many consecutive transport Writes fail (0 means 1)
-	pauseAt map[int]int // channel -> index of the transport Write that waits until every item has been submitted
-	seed    int64
-	pace    int // >= 0: after every write wait until every channel but this one has put the item on the wire
+	k           int
+	plan        [][]fanOp
+	blockAt     map[int]int // channel -> index of the transport Write that blocks
+	failAt      map[int]int // channel -> index of the transport Write that fails
+	failLen     int         // that many consecutive transport Writes fail (0 means 1)
+	failTimeout bool        // ... with a time-out error
+	pauseAt     map[int]int // channel -> index of the transport Write that waits until every item has been submitted
+	seed        int64
+	pace        int // >= 0: after every write wait until every channel but this one has put the item on the wire
 }
 
 type fanResult struct {
@@ -89,6 +90,7 @@ func runFanScenario(sc fanScenario) fanResult {
 		if f, ok := sc.failAt[i]; ok {
 			conns[i].failAt = f
 			conns[i].failLen = sc.failLen
+			conns[i].failTimeout = sc.failTimeout
 		}
 		if p, ok := sc.pauseAt[i]; ok {
 			conns[i].pauseAt = p
@@ -367,11 +369,16 @@ func genC13(r *rngT, n int, tier string) {
 	for s := 0; s < n; s++ {
 		k := 2 + r.Intn(3)
 		victim := r.Intn(k)
-		mode := []string{"block", "fail", "bad", "pause"}[s%4]
+		mode := []string{"block", "fail", "bad", "pause", "pausefail"}[s%5]
 		at := r.Intn(4)
 		nitems := 75 + r.Intn(80) // beyond the queue bound of the victim
 		if mode == "fail" || mode == "bad" {
 			nitems = 20 + r.Intn(30)
+		}
+		if mode == "pausefail" {
+			// the at-th write waits until everything has been submitted and then fails (plain error or time-out) while a backlog
+			// smaller than the queue stands behind it: nothing but the failed item may be missing, and the order is kept
+			nitems = at + 2 + r.Intn(50)
 		}
 		sc := fanScenario{k: k, seed: r.Int63(), blockAt: map[int]int{}, failAt: map[int]int{}, pauseAt: map[int]int{}, pace: victim}
 		var ops []fanOp
@@ -397,6 +404,19 @@ func genC13(r *rngT, n int, tier string) {
 			badIdx = run
 		case "pause":
 			sc.pauseAt[victim] = at
+		case "pausefail":
+			sc.pauseAt[victim] = at
+			sc.failAt[victim] = at
+			sc.failLen = 1
+			sc.failTimeout = r.bool()
+			badIdx = 1
+		}
+		if mode == "fail" {
+			sc.failTimeout = r.Intn(3) == 0
+		}
+		opMode := mode
+		if mode == "pausefail" {
+			opMode = "fail" // judged like a failing write: closed and reported, or everything but the failed item, in order
 		}
 		sc.plan = [][]fanOp{ops}
 		res := runFanScenario(sc)
@@ -409,7 +429,7 @@ func genC13(r *rngT, n int, tier string) {
 		if res.note != "" {
 			impl = res.note
 		}
-		emit(fmt.Sprintf("stallcheck %d %s %d %d %d %s %s %s", k, mode, victim, at, badIdx, encPlan2(sc.plan), strings.Join(obs, ";"), strings.Join(evs, ";")), impl)
+		emit(fmt.Sprintf("stallcheck %d %s %d %d %d %s %s %s", k, opMode, victim, at, badIdx, encPlan2(sc.plan), strings.Join(obs, ";"), strings.Join(evs, ";")), impl)
 		stat("op:stallcheck")
 		stat("c13-" + mode)
 		if res.note != "" {
